@@ -1,7 +1,314 @@
+/-
+C17 — Index key encoding preserves value order and loses nothing.
+Property theorems only (lemmas live in DefraModel/Proofs).  Everything is stated
+for ALL values of the kind within the Go type's range; no size bound.
+-/
 import DefraModel.Encoding.FieldValue
+import DefraModel.Proofs.ScalarOrder
 namespace Defra.Props.C17
-open Defra Defra.Enc
+open Defra Defra.Enc Defra.Bytes
 
-theorem placeholder : (1 : Nat) = 1 := rfl
+/-- the Go type's range / what the writer can produce -/
+def JScalar.Wf : JScalar → Prop
+  | .str s => IsBytes s
+  | .num u => u < 2 ^ 64 ∧ f64.isNaN u = false
+  | .bool _ => True
+  | .null => True
+
+def Val.Wf : Val → Prop
+  | .null => True
+  | .bool _ => True
+  | .int i => -(2 ^ 63) ≤ i ∧ i < 2 ^ 63
+  | .f32 u => u < 2 ^ 32 ∧ f32.isNaN u = false
+  | .f64 u => u < 2 ^ 64 ∧ f64.isNaN u = false
+  | .str s => IsBytes s
+  | .time s n => (-(2 ^ 63) ≤ s ∧ s < 2 ^ 63) ∧ 0 ≤ n ∧ n < 1000000000
+  | .json _ v => JScalar.Wf v
+
+/-- the order of the values themselves: null first, then the natural order of the kind
+    (IEEE order for floats with `-0 = +0`; `bytes.Compare` for strings; (seconds, nanoseconds)
+    for times; JSON scalars of one kind under one path) -/
+def Val.lt : Val → Val → Prop
+  | .null, .null => False
+  | .null, _ => True
+  | .bool a, .bool b => a = false ∧ b = true
+  | .int a, .int b => a < b
+  | .f32 a, .f32 b => f32.key a < f32.key b
+  | .f64 a, .f64 b => f64.key a < f64.key b
+  | .str a, .str b => Bytes.lt a b = true
+  | .time s n, .time s' n' => s < s' ∨ (s = s' ∧ n < n')
+  | .json p (.str a), .json q (.str b) => p = q ∧ Bytes.lt a b = true
+  | .json p (.num a), .json q (.num b) => p = q ∧ f64.key a < f64.key b
+  | .json p (.bool a), .json q (.bool b) => p = q ∧ a = false ∧ b = true
+  | _, _ => False
+
+/-- **ascending keys are an order embedding into a prefix-free code**: a smaller value's key
+    is decided smaller at a differing byte, whatever follows either key -/
+theorem asc_mono (a b : Val) (ha : Val.Wf a) (hb : Val.Wf b) (h : Val.lt a b) :
+    slt (fieldValue false a) (fieldValue false b) = true := by
+  cases a <;> cases b <;> simp only [Val.lt] at h <;> simp only [fieldValue, Bool.false_eq_true, if_false]
+  -- null below every non-null
+  case null.bool b => cases b <;> simp [nullAsc, boolAsc]
+  case null.int i =>
+    unfold varintAsc uvarintAsc nullAsc
+    have := nwidth_pos i; have := uwidth_pos i.toNat
+    repeat' split
+    all_goals (enc_consts; simp; omega)
+  case null.f32 u => unfold floatAsc nullAsc; repeat' split
+                     all_goals simp [f32]
+  case null.f64 u => unfold floatAsc nullAsc; repeat' split
+                     all_goals simp [f64]
+  case null.str s => simp [nullAsc, bytesAsc]
+  case null.time s n => simp [nullAsc, timeAsc]
+  case null.json p v => simp [nullAsc, jsonEnc, jsonPath]
+  case bool.bool x y => obtain ⟨rfl, rfl⟩ := h; simp [boolAsc]
+  case int.int x y => exact varintAsc_mono x y ha.1 hb.2 h
+  case f32.f32 x y => exact floatAsc_mono f32 f32_good x y ha.1 hb.1 ha.2 hb.2 h
+  case f64.f64 x y => exact floatAsc_mono f64 f64_good x y ha.1 hb.1 ha.2 hb.2 h
+  case str.str x y => exact bytesAsc_mono x y h
+  case time.time s n s' n' =>
+    exact timeAsc_mono s n s' n' ha.1 hb.1 (by have := ha.2; omega) (by have := hb.2; omega) h
+  case json.json p x q y =>
+    cases x <;> cases y <;> simp only [Val.lt] at h
+    case str.str x y => obtain ⟨rfl, h⟩ := h; simp only [jsonEnc, jsonScalar, Bool.false_eq_true, if_false, slt_prefix]; exact bytesAsc_mono x y h
+    case num.num x y => obtain ⟨rfl, h⟩ := h; simp only [jsonEnc, jsonScalar, Bool.false_eq_true, if_false, slt_prefix]; exact floatAsc_mono f64 f64_good x y ha.1 hb.1 ha.2 hb.2 h
+    case bool.bool x y => obtain ⟨rfl, rfl, rfl⟩ := h; simp [jsonEnc, jsonScalar, boolAsc]
+
+/-- **descending keys reverse the order** (null last) -/
+theorem desc_anti (a b : Val) (ha : Val.Wf a) (hb : Val.Wf b) (h : Val.lt a b) :
+    slt (fieldValue true b) (fieldValue true a) = true := by
+  cases a <;> cases b <;> simp only [Val.lt] at h <;> simp only [fieldValue, if_true]
+  case null.bool b => cases b <;> simp [nullDesc, boolDesc, boolAsc]
+  case null.int i =>
+    unfold varintDesc varintAsc uvarintAsc nullDesc
+    have := nwidth_pos (inot i); have := uwidth_pos (inot i).toNat
+    repeat' split
+    all_goals (enc_consts; simp; omega)
+  case null.f32 u => unfold floatDesc floatAsc nullDesc; repeat' split
+                     all_goals simp [f32]
+  case null.f64 u => unfold floatDesc floatAsc nullDesc; repeat' split
+                     all_goals simp [f64]
+  case null.str s => simp [nullDesc, bytesDesc]
+  case null.time s n => simp [nullDesc, timeDesc]
+  case null.json p v => simp [nullDesc, jsonEnc, jsonPath]
+  case bool.bool x y => obtain ⟨rfl, rfl⟩ := h; simp [boolDesc, boolAsc]
+  case int.int x y => exact varintDesc_anti x y ha.1 hb.2 h
+  case f32.f32 x y => exact floatDesc_anti f32 f32_good x y ha.1 hb.1 ha.2 hb.2 h
+  case f64.f64 x y => exact floatDesc_anti f64 f64_good x y ha.1 hb.1 ha.2 hb.2 h
+  case str.str x y => exact bytesDesc_anti x y ha hb h
+  case time.time s n s' n' =>
+    exact timeDesc_anti s n s' n' ha.1 hb.1 (by have := ha.2; omega) (by have := hb.2; omega) h
+  case json.json p x q y =>
+    cases x <;> cases y <;> simp only [Val.lt] at h
+    case str.str x y => obtain ⟨rfl, h⟩ := h; simp only [jsonEnc, jsonScalar, if_true, slt_prefix]; exact bytesDesc_anti x y ha hb h
+    case num.num x y => obtain ⟨rfl, h⟩ := h; simp only [jsonEnc, jsonScalar, if_true, slt_prefix]; exact floatDesc_anti f64 f64_good x y ha.1 hb.1 ha.2 hb.2 h
+    case bool.bool x y => obtain ⟨rfl, rfl, rfl⟩ := h; simp [jsonEnc, jsonScalar, boolDesc, boolAsc]
+
+/-- byte order of ascending keys **is** value order (both directions), per direction flag -/
+theorem lt_iff_enc_lt (a b : Val) (ha : Val.Wf a) (hb : Val.Wf b)
+    (tri : Val.lt a b ∨ fieldValue false a = fieldValue false b ∨ Val.lt b a) :
+    Val.lt a b ↔ Bytes.lt (fieldValue false a) (fieldValue false b) = true := by
+  constructor
+  · intro h; exact slt_imp_lt _ _ (asc_mono a b ha hb h)
+  · intro h
+    rcases tri with t | t | t
+    · exact t
+    · rw [t, lt_irrefl] at h; cases h
+    · have := lt_asymm _ _ (slt_imp_lt _ _ (asc_mono b a hb ha t)); rw [h] at this; cases this
+
+theorem desc_reverses (a b : Val) (ha : Val.Wf a) (hb : Val.Wf b)
+    (tri : Val.lt a b ∨ fieldValue true a = fieldValue true b ∨ Val.lt b a) :
+    Val.lt a b ↔ Bytes.lt (fieldValue true b) (fieldValue true a) = true := by
+  constructor
+  · intro h; exact slt_imp_lt _ _ (desc_anti a b ha hb h)
+  · intro h
+    rcases tri with t | t | t
+    · exact t
+    · rw [t, lt_irrefl] at h; cases h
+    · have := lt_asymm _ _ (slt_imp_lt _ _ (desc_anti b a hb ha t)); rw [h] at this; cases this
+
+/-- trichotomy holds within each scalar kind, so the `tri` hypothesis above is always available
+    for two integers / two floats / two strings / two times -/
+theorem tri_int (a b : Int) : Val.lt (.int a) (.int b) ∨ fieldValue false (.int a) = fieldValue false (.int b) ∨ Val.lt (.int b) (.int a) := by
+  simp only [Val.lt]
+  rcases Int.lt_trichotomy a b with h | h | h
+  · exact Or.inl h
+  · exact Or.inr (Or.inl (by rw [h]))
+  · exact Or.inr (Or.inr h)
+
+theorem tri_f64 (a b : Nat) (ha : Val.Wf (.f64 a)) (hb : Val.Wf (.f64 b)) :
+    Val.lt (.f64 a) (.f64 b) ∨ fieldValue false (.f64 a) = fieldValue false (.f64 b) ∨ Val.lt (.f64 b) (.f64 a) := by
+  simp only [Val.lt]
+  rcases Int.lt_trichotomy (f64.key a) (f64.key b) with h | h | h
+  · exact Or.inl h
+  · exact Or.inr (Or.inl (by simp only [fieldValue, Bool.false_eq_true, if_false]; exact floatAsc_eq_of_key f64 a b ha.1 hb.1 ha.2 hb.2 h))
+  · exact Or.inr (Or.inr h)
+
+theorem tri_f32 (a b : Nat) (ha : Val.Wf (.f32 a)) (hb : Val.Wf (.f32 b)) :
+    Val.lt (.f32 a) (.f32 b) ∨ fieldValue false (.f32 a) = fieldValue false (.f32 b) ∨ Val.lt (.f32 b) (.f32 a) := by
+  simp only [Val.lt]
+  rcases Int.lt_trichotomy (f32.key a) (f32.key b) with h | h | h
+  · exact Or.inl h
+  · exact Or.inr (Or.inl (by simp only [fieldValue, Bool.false_eq_true, if_false]; exact floatAsc_eq_of_key f32 a b ha.1 hb.1 ha.2 hb.2 h))
+  · exact Or.inr (Or.inr h)
+
+theorem tri_str (a b : Bytes) :
+    Val.lt (.str a) (.str b) ∨ fieldValue false (.str a) = fieldValue false (.str b) ∨ Val.lt (.str b) (.str a) := by
+  simp only [Val.lt]
+  by_cases h : a = b
+  · exact Or.inr (Or.inl (by rw [h]))
+  · rcases lt_total a b h with h | h
+    · exact Or.inl h
+    · exact Or.inr (Or.inr h)
+
+theorem tri_time (s n s' n' : Int) :
+    Val.lt (.time s n) (.time s' n') ∨ fieldValue false (.time s n) = fieldValue false (.time s' n') ∨ Val.lt (.time s' n') (.time s n) := by
+  simp only [Val.lt]
+  by_cases h : s = s' ∧ n = n'
+  · exact Or.inr (Or.inl (by rw [h.1, h.2]))
+  · omega
+
+/-- **null first** (ascending) / last (descending), against every non-null value of every kind -/
+theorem null_first (v : Val) (hv : Val.Wf v) (hn : v ≠ .null) :
+    slt (fieldValue false .null) (fieldValue false v) = true ∧
+    slt (fieldValue true v) (fieldValue true .null) = true := by
+  have h : Val.lt .null v := by cases v <;> simp_all [Val.lt]
+  exact ⟨asc_mono _ _ trivial hv h, desc_anti _ _ trivial hv h⟩
+
+/-- **prefix-free**: the key of a value is never a prefix of the key of a value it is ordered with
+    (so a composite key cannot be confused by where one component ends) -/
+theorem prefix_free (a b : Val) (ha : Val.Wf a) (hb : Val.Wf b) (d : Bool) (h : Val.lt a b) :
+    isPrefix (fieldValue d a) (fieldValue d b) = false ∧ isPrefix (fieldValue d b) (fieldValue d a) = false := by
+  cases d
+  · exact ⟨slt_not_prefix_left _ _ (asc_mono a b ha hb h), slt_not_prefix_right _ _ (asc_mono a b ha hb h)⟩
+  · exact ⟨slt_not_prefix_right _ _ (desc_anti a b ha hb h), slt_not_prefix_left _ _ (desc_anti a b ha hb h)⟩
+
+/-- the order a component with direction flag `d` is meant to impose -/
+def compLt (d : Bool) (a b : Val) : Prop := if d then Val.lt b a else Val.lt a b
+
+theorem flatMap_key_slt (pre : List (Val × Bool)) (a b : Val) (d : Bool) (ra rb : List (Val × Bool))
+    (h : slt (fieldValue d a) (fieldValue d b) = true) :
+    slt ((pre ++ (a, d) :: ra).flatMap (fun (v, d) => 0x2f :: fieldValue d v))
+        ((pre ++ (b, d) :: rb).flatMap (fun (v, d) => 0x2f :: fieldValue d v)) = true := by
+  simp only [List.flatMap_append, List.flatMap_cons, slt_prefix, List.cons_append, slt_cons,
+    beq_self_eq_true, Bool.true_and, Bool.or_eq_true]
+  exact Or.inr (slt_append _ _ _ _ h)
+
+/-- **composite keys compare component-wise**: two index keys of one index that agree on the first
+    components and whose next components are ordered (each in its own direction) are ordered the
+    same way as byte strings, whatever the remaining components and the trailing docID are -/
+theorem composite_lex (col idx : Nat) (hc : col ≠ 0) (hi : idx ≠ 0)
+    (pre : List (Val × Bool)) (a b : Val) (d : Bool) (ra rb : List (Val × Bool))
+    (ha : Val.Wf a) (hb : Val.Wf b) (h : compLt d a b) :
+    Bytes.lt (indexKey col idx (pre ++ (a, d) :: ra)) (indexKey col idx (pre ++ (b, d) :: rb)) = true := by
+  apply slt_imp_lt
+  have hs : slt (fieldValue d a) (fieldValue d b) = true := by
+    cases d
+    · exact asc_mono a b ha hb h
+    · exact desc_anti b a hb ha h
+  have key : ∀ fs, indexKey col idx fs =
+      ((0x2f :: uvarintAsc col) ++ (0x2f :: uvarintAsc idx)) ++ fs.flatMap (fun (v, d) => 0x2f :: fieldValue d v) := by
+    intro fs; unfold indexKey; simp [hc, hi]
+  rw [key, key, slt_prefix]
+  exact flatMap_key_slt pre a b d ra rb hs
+
+/-- **nothing is lost**: decoding an entry returns the written value (floats: the same number, with
+    `-0` read back as `+0` ascending — both zeros share one key by design) and the exact remainder -/
+theorem decode_encode_int (i : Int) (h : Val.Wf (.int i)) (d : Bool) (r : Bytes) :
+    decFieldValue d (fieldValue d (.int i) ++ r) = some (.int i, r) := by
+  have hb := varintAsc_isBytes (if d then inot i else i)
+  cases d
+  · simp only [fieldValue, Bool.false_eq_true, if_false]
+    have hdec := dec_varintAsc i h.1 h.2 r
+    have : ∃ m rest, varintAsc i ++ r = m :: rest ∧ m ≥ IntMin ∧ m ≤ IntMax := by
+      unfold varintAsc uvarintAsc
+      have := nwidth_pos i; have := uwidth_pos i.toNat
+      repeat' split
+      all_goals exact ⟨_, _, rfl, by simp only [IntMin, IntMax, intZero, intSmall] at *; omega⟩
+    obtain ⟨m, rest, e, h1, h2⟩ := this
+    rw [e] at hdec ⊢
+    simp only [decFieldValue]
+    have n1 : ¬ (m = encodedNull ∨ m = encodedNullDesc) := by enc_consts; omega
+    have n2 : ¬ (m = bytesMarker ∨ m = bytesDescMarker) := by enc_consts; omega
+    simp [n1, n2, h1, h2, hdec]
+  · simp only [fieldValue, if_true]
+    have hdec := dec_varintDesc i h.1 h.2 r
+    have : ∃ m rest, varintDesc i ++ r = m :: rest ∧ m ≥ IntMin ∧ m ≤ IntMax := by
+      unfold varintDesc varintAsc uvarintAsc
+      have := nwidth_pos (inot i); have := uwidth_pos (inot i).toNat
+      repeat' split
+      all_goals exact ⟨_, _, rfl, by simp only [IntMin, IntMax, intZero, intSmall] at *; omega⟩
+    obtain ⟨m, rest, e, h1, h2⟩ := this
+    rw [e] at hdec ⊢
+    simp only [decFieldValue]
+    have n1 : ¬ (m = encodedNull ∨ m = encodedNullDesc) := by enc_consts; omega
+    have n2 : ¬ (m = bytesMarker ∨ m = bytesDescMarker) := by enc_consts; omega
+    simp [n1, n2, h1, h2, hdec]
+
+theorem decode_encode_str (s : Bytes) (h : Val.Wf (.str s)) (d : Bool) (r : Bytes) :
+    decFieldValue d (fieldValue d (.str s) ++ r) = some (.str s, r) := by
+  cases d
+  · have h1 := dec_bytesAsc s r
+    simp only [bytesAsc, bytesMarker, List.cons_append, List.append_assoc, List.nil_append] at h1
+    simp [fieldValue, bytesAsc, decFieldValue, h1]
+  · have h1 := dec_bytesDesc s r h
+    simp only [bytesDesc, bytesDescMarker, List.cons_append, List.append_assoc, List.nil_append] at h1
+    simp [fieldValue, bytesDesc, decFieldValue, h1]
+
+theorem decode_encode_time (s n : Int) (h : Val.Wf (.time s n)) (d : Bool) (r : Bytes) :
+    decFieldValue d (fieldValue d (.time s n) ++ r) = some (.time s n, r) := by
+  cases d
+  · have h1 := dec_timeAsc s n h.1 h.2.1 h.2.2 r
+    simp only [timeAsc, timeMarker, List.cons_append, List.append_assoc, List.nil_append] at h1
+    simp [fieldValue, timeAsc, decFieldValue, h1]
+  · have h1 := dec_timeDesc s n h.1 h.2.1 h.2.2 r
+    simp only [timeDesc, timeMarker, List.cons_append, List.append_assoc, List.nil_append] at h1
+    simp [fieldValue, timeDesc, decFieldValue, h1]
+
+theorem decode_encode_bool (b : Bool) (d : Bool) (r : Bytes) :
+    decFieldValue d (fieldValue d (.bool b) ++ r) = some (.bool b, r) := by
+  cases d <;> cases b <;> simp [fieldValue, boolAsc, boolDesc, decFieldValue]
+
+theorem decode_encode_null (d : Bool) (r : Bytes) :
+    decFieldValue d (fieldValue d .null ++ r) = some (.null, r) := by
+  cases d <;> simp [fieldValue, nullAsc, nullDesc, decFieldValue]
+
+/-- the upper bound the index iterators use for "everything with this prefix":
+    every key extending `p` sorts below `prefixEnd p` (unless `p` is all `ff`, when Go returns `p`) -/
+theorem prefixEnd_upper (p s : Bytes) (r : Bytes) (h : prefixEndRev p.reverse = some r) :
+    slt (p ++ s) (prefixEnd p) = true := by
+  unfold prefixEnd; rw [h]
+  -- generalise over the reversed prefix
+  have key : ∀ (q : Bytes) (r : Bytes) (t : Bytes), prefixEndRev q = some r →
+      slt (q.reverse ++ t) r.reverse = true := by
+    intro q
+    induction q with
+    | nil => intro r t h; simp [prefixEndRev] at h
+    | cons x xs ih =>
+      intro r t h
+      simp only [prefixEndRev] at h
+      split at h
+      · have := ih r ([x] ++ t) h
+        simpa using this
+      · injection h with h; subst h
+        simp only [List.reverse_cons, List.append_assoc, List.cons_append, List.nil_append]
+        rw [show xs.reverse ++ [x + 1] = xs.reverse ++ ([x + 1] ++ []) from by simp, slt_prefix]
+        simp
+  have := key p.reverse r s h
+  simpa using this
+
+/-! ### non-vacuity: concrete non-trivial values meet every hypothesis, at the extremes -/
+
+example : Val.Wf (.int (-(2 ^ 63))) ∧ Val.Wf (.int (2 ^ 63 - 1)) ∧ Val.lt (.int (-(2 ^ 63))) (.int (2 ^ 63 - 1)) := by
+  simp [Val.Wf, Val.lt]
+example : Val.Wf (.f64 0x8000000000000000) ∧ Val.Wf (.f64 0x7FF0000000000000) ∧
+    Val.lt (.f64 0xFFF0000000000000) (.f64 0x8000000000000001) := by
+  simp [Val.Wf, Val.lt, f64, FFmt.isNaN, FFmt.mag, FFmt.signBit, FFmt.key, FFmt.isNeg]
+example : Val.Wf (.str [0, 255, 0]) ∧ Val.lt (.str []) (.str [0]) ∧ Val.lt (.str [0]) (.str [0, 0]) := by
+  refine ⟨?_, by simp [Val.lt], by simp [Val.lt]⟩
+  intro x hx; simp at hx; omega
+example : Val.Wf (.time (-62135596800) 999999999) := by simp [Val.Wf]
+example : fieldValue false (.int (-256)) = [134, 255, 0] ∧ fieldValue true (.int 300) = [134, 254, 211] := by
+  constructor <;> decide
 
 end Defra.Props.C17
